@@ -139,7 +139,14 @@ func runOpenOwned(p *core.Program, r *core.Report) {
 				checkOpenFileOwned(p, r, "OPEN-OWNED", fn, c)
 			case name == "os.Pipe":
 				// both ends must be closed here (incl. closures), or stored into Ports with ownership recorded
-				owned := fopFileTrueStores(fn)
+				// the pipe may be made by a helper extracted from the function
+				// that records the ownership (newPipelinePipe): look at the
+				// helper and at the functions all its call sites lie in
+				chain := uniqueCallerChain(p, fn)
+				var owned []ssa.Instruction
+				for _, cf := range chain {
+					owned = append(owned, fopFileTrueStores(cf)...)
+				}
 				var closes int
 				var scan func(f *ssa.Function)
 				scan = func(f *ssa.Function) {
@@ -154,7 +161,9 @@ func runOpenOwned(p *core.Program, r *core.Report) {
 						scan(a)
 					}
 				}
-				scan(fn)
+				for _, cf := range chain {
+					scan(cf)
+				}
 				switch {
 				case closes >= 2:
 					r.OK("OPEN-OWNED", construct, p.InsPos(ins), "both pipe ends are closed by this function, its goroutines or the cleanup function it returns")
